@@ -64,6 +64,38 @@ def evaluate(args):
     return out
 
 
+def eval_redefine(args):
+    """a named group redefined without a self-reference is a restriction of the group it redefines (Structures 4.2.3, src-redefine 6.2.2); the rule holds for every level of
+    a chain of redefinitions, also below a level that extends the group by referring to itself"""
+    base, ver = args
+    import xmlschema, tempfile, shutil, os
+    out = dict(base=cm.show(base), version=ver, pairs=0, accepted=0, widening=[])
+    # the content of a named group is one compositor without occurrence attributes: bases and candidates of that shape only (the same pairs as for type restrictions)
+    plain = lambda m: m[0] in ('seq', 'cho') and tuple(m[2]) == (1, 1)
+    if not cm.upa_ok(base, '1.0') or not plain(base): return out
+    d = tempfile.mkdtemp(prefix='verif_c14_')
+    try:
+        def w(name, text): open(os.path.join(d, name), 'w').write(text)
+        grp = lambda m: '<xs:group name="g">' + cm.xsd(m).replace(' minOccurs="1" maxOccurs="1"', '', 1) + '</xs:group>'
+        w('a.xsd', f'<xs:schema {cm.XS}>{grp(base)}<xs:element name="b"><xs:complexType><xs:group ref="g"/></xs:complexType></xs:element></xs:schema>')
+        _cls(ver)(os.path.join(d, 'a.xsd'))       # a deterministic plain compositor: a refusal here is a fault of this harness, not a verdict
+        LB = {x for x in WORDS if cm.in_language(base, x)}
+        w('c.xsd', f'<xs:schema {cm.XS}><xs:redefine schemaLocation="b.xsd"><xs:group name="g"><xs:sequence><xs:group ref="g"/><xs:element name="c" minOccurs="0"/></xs:sequence></xs:group></xs:redefine></xs:schema>')
+        for der in itertools.islice(edits(base), 46):
+            bad = [x for x in WORDS if x not in LB and cm.in_language(der, x)]
+            if not bad or not plain(der): continue          # a true restriction: nothing to refute (acceptance of true restrictions is not part of the clause)
+            w('b.xsd', f'<xs:schema {cm.XS}><xs:redefine schemaLocation="a.xsd">{grp(der)}</xs:redefine></xs:schema>')
+            for top in ('b.xsd', 'c.xsd'):
+                out['pairs'] += 1
+                try: s = _cls(ver)(os.path.join(d, top))
+                except xmlschema.XMLSchemaException: continue
+                out['accepted'] += 1
+                vd = s.is_valid(cm.doc(bad[0], 'b'))
+                if vd or cm.upa_ok(der, '1.0'): out['widening'].append(dict(derived=cm.show(der), der_model=der, word=bad[0], top=top))
+    finally: shutil.rmtree(d, ignore_errors=True)
+    return out
+
+
 def run(tier, seed, open_findings):
     bases = [m for i, m in enumerate(cm.two_level_models()) if i % 12 == 0]
     sel, exhaustive = part(bases, tier, seed, 5)
@@ -82,17 +114,36 @@ def run(tier, seed, open_findings):
                   exhaustive=exhaustive, known={'C14-model-restriction-widens': nk} if nk else {}, distinct=acc,
                   samples=[dict(base=cm.show(sel[0]), candidates=[cm.show(d) for d in itertools.islice(edits(sel[0]), 3)])] if sel else [],
                   notes=f'{acc} candidate restrictions were accepted by the builder and checked for language inclusion')]
+    pbases = [m for m in bases if m[0] in ('seq', 'cho') and tuple(m[2]) == (1, 1)]
+    rsel, rex = part(pbases, tier, seed + 1, 2)
+    rjobs = [(m, ver) for m in rsel for ver in ('1.0', '1.1')]
+    rres = pmap(eval_redefine, rjobs)
+    rf = []; rk = 0; rp = ra = 0
+    for r, (m, ver) in zip(rres, rjobs):
+        rp += r['pairs']; ra += r['accepted']
+        for w in r['widening']:
+            if f"{ver}|{r['base']}|{w['derived']}" in known and 'C14-model-restriction-widens' in open_findings: rk += 1; continue
+            rf.append(dict(case=dict(redefine=True, base=m, derived=w['der_model'], version=ver, top=w['top']),
+                           observed=f"group {r['base']} redefined (without self-reference) as {w['derived']} is accepted through {w['top']} although the redefinition admits {w['word']!r}",
+                           required='a redefinition of a group that does not refer to itself is accepted only if it is a restriction, at every level of a chain of redefinitions'))
+    out.append(result('C14.redefined_groups', f'{len(rsel)} of {len(pbases)} base groups (one compositor, occurring once) x <=46 candidate redefinitions that are not restrictions x (b.xsd redefines a.xsd; c.xsd extends the group of b.xsd by self-reference) x 2 classes',
+                      rp, rf, exhaustive=rex, known={'C14-model-restriction-widens': rk} if rk else {}, distinct=rp,
+                      notes=f'{ra} of the non-restricting redefinitions were accepted by the builder (each is a listed known pair or a failure)'))
     from . import C14_facets
     out += C14_facets.run(tier, seed, open_findings)
     return out
 
 
 def replay(check_name, case):
-    if check_name.startswith('C14.facet') or check_name.startswith('C14.attr'):
+    if check_name not in ('C14.model_restrictions', 'C14.redefined_groups'):
         from . import C14_facets
         return C14_facets.replay(check_name, case)
     base, der, ver = _tuplify(case['base']), _tuplify(case['derived']), case['version']
     import xmlschema
+    if case.get('redefine'):
+        r = eval_redefine((base, ver))
+        mine = [w for w in r['widening'] if w['derived'] == cm.show(der) and w['top'] == case['top']]
+        return dict(ok=not mine, observed=mine[:1], required='refused')
     try: s = _cls(ver)(schema_text(base, der))
     except xmlschema.XMLSchemaException as e: return dict(ok=True, observed=f'rejected: {type(e).__name__}', required='-')
     bad = [w for w in WORDS if cm.in_language(der, w) and not cm.in_language(base, w)]
